@@ -208,11 +208,10 @@ void slot_init(Slot &s, Model *m)
 {
     s.m = m;
     model_reset(m);
+    memset(&s.v, 0xA5, sizeof s.v);      // init must set every field itself
     if (m->has_c || m->has_d)
-        memset(&s.v, 0xA5, sizeof s.v);      // init must set every field itself
         cstl_vector_init_complex(&s.v, m->es, m->has_c ? ctor_cb : nullptr, m->has_d ? dtor_cb : nullptr, m);
     else
-        memset(&s.v, 0xA5, sizeof s.v);
         cstl_vector_init(&s.v, m->es);
     s.active = true;
     s.dead = false;
